@@ -115,15 +115,23 @@ def run_one(case):
         def written():
             return bytes(sock.outbox[base_len:])
 
+        memo = [None, False]
+
         def goal():
+            # evaluated at every scheduling step: the decode is redone only when more bytes have reached the socket
             if len(done) < len(msgs):
                 return False
+            if memo[0] == len(sock.outbox):
+                return memo[1]
+            memo[0] = len(sock.outbox)
             try:
                 dec = rc.dec_stream(written(), strict_tail=True)
             except rc.RefDecodeError:
+                memo[1] = False
                 return False
-            return sum(1 for m in dec if m["cmd"] not in BASE_CMDS) >= sum(len(l) for l in expected) and \
+            memo[1] = sum(1 for m in dec if m["cmd"] not in BASE_CMDS) >= sum(len(l) for l in expected) and \
                 sum(1 for m in dec if m["cmd"] == 280 and not m["flags"] & 0x80) >= n_dwr
+            return memo[1]
         r = w.run(goal, 15.0)
         w.run(lambda: False, 1.2)          # let duplicates surface
         out = written()
